@@ -29,6 +29,7 @@ type C18Case struct {
 	Policy     int      `json:"policy"`
 	Strategy   string   `json:"strategy,omitempty"`
 	Env        bool     `json:"env,omitempty"`
+	DensePre   int      `json:"dense_prefill,omitempty"` // tensor pool pre-filled to this many entries (PoolSize-1 / PoolSize reach the pool-full branches)
 }
 
 type C18Stats struct {
@@ -170,9 +171,22 @@ func soloRun(cs *C18Case, c int, gen *RNG, length int, adversarial bool, st *C18
 		length = len(prog)
 	}
 	outs := make([]Outcome, 0, length)
+	tail := 0
+	if g != nil && gen.Intn(3) == 0 {
+		// a client that ends by handing its tensors back to the pool (the pool-full branches of
+		// ReturnTensor are only interesting when several clients are in them at once)
+		tail = 1 + gen.Intn(2)
+		length += tail
+	}
 	for k := 0; k < length; k++ {
 		var op Op
-		if g != nil {
+		if g != nil && k >= length-tail {
+			var ok bool
+			if op, ok = g.genLifecycle(true); !ok || op.Name != "ReturnTensor" {
+				op = g.Next()
+			}
+			op.Fam = "lifecycle"
+		} else if g != nil {
 			op = g.Next()
 			if gen.Intn(8) > 0 {
 				op.Adv = gen.Next() | 1
@@ -226,6 +240,9 @@ func concRun(cs *C18Case, sr *RNG, replay bool, st *C18Stats) *concResult {
 	P.Reset(true)
 	P.recycleNum, P.dropDen, P.policy = cs.RecycleNum, cs.DropDen, cs.Policy
 	resetFinalizers()
+	if cs.DensePre > 0 {
+		tensor.VerifFillDensePool(cs.DensePre)
+	}
 	shared := buildShared(cs.Setup)
 	n := cs.Clients
 	worlds := make([]*World, n)
@@ -267,6 +284,10 @@ func concRun(cs *C18Case, sr *RNG, replay bool, st *C18Stats) *concResult {
 		for k := range prog {
 			op := prog[k]
 			w.step = k
+			if cs.DensePre > 0 && (op.Adv>>7)%3 == 0 {
+				// other users of the package keep handing tensors back: the pool is topped up to its level again
+				tensor.VerifFillDensePool(cs.DensePre)
+			}
 			S.inOp[c] = k
 			P.BeginOp(c, op.Adv)
 			o := w.Exec(&op)
@@ -345,6 +366,16 @@ func genC18(seed uint64, tier string, st *C18Stats) *C18Case {
 	cs.DropDen = []int{0, 0, 16, 8, 3}[r.Intn(5)]
 	cs.Policy = r.Intn(3)
 	cs.Env = r.Intn(3) == 0
+	k := r.Intn(12)
+	if os.Getenv("VERIF_FORCE_POOL_ALMOST_FULL") != "" {
+		k = 1
+	}
+	switch k {
+	case 0:
+		cs.DensePre = tensor.PoolSize
+	case 1, 2:
+		cs.DensePre = tensor.PoolSize - 1 - r.Intn(3)
+	}
 	sr := r.Fork(0x5e7)
 	cs.Setup = genSetup(&sr)
 	cs.Programs = make([][]Op, cs.Clients)
